@@ -1,13 +1,11 @@
 /* unit nq - nikolaev_queue (C04 node hand-over / finalisation / reclamation, C07 ownership).  Function bodies: lowered.h.
  * Rings: contract stub of unit scq.  Guards: contract stub (acquire = snapshot + protect, reclaim = retire once). */
-#ifdef XV_MONITOR
 #include <stdint.h>
 #include <stddef.h>
 static void mon_cas(void* addr, uint64_t e, uint64_t d, _Bool ok, int o);
 static void mon_load(void* addr, uint64_t v, int o);
 #define XV_ON_CAS(addr, e, d, ok, order) mon_cas((void*)(addr), (uint64_t)(e), (uint64_t)(d), (ok), (order))
 #define XV_ON_LOAD(addr, val, order) mon_load((void*)(addr), (uint64_t)(val), (order))
-#endif
 #include "xv.h"
 int xv_threw; uint64_t xv_clock, xv_rmw_old; _Bool xv_cas_ok;
 #ifndef CAP
@@ -40,7 +38,8 @@ unsigned short g_t_construct, g_t_destroy, g_t_moveout;
   XV_OBL("nq.own.exactly_once", (s).alive && !(s).moved); XV_OBL("nq.own.exactly_once", (d).alive); \
   (d).v = (s).v; (d).moved = 0; (s).moved = 1; if ((s).cell) { (s).nm++; g_t_moveout = ++xv_ev; } if (!(d).cell) g_ext_assigned++; } while (0)
 /* ---- rings */
-#define RING_dequeue(r, out, cap, rs) ring_dequeue(&(r), &(out), (cap), (rs))
+uint64_t g_deq_clock; _Bool g_deq_ok;                 /* atomic-event time and result of the last ring dequeue */
+#define RING_dequeue(r, out, cap, rs) (g_deq_clock = xv_clock, g_deq_ok = ring_dequeue(&(r), &(out), (cap), (rs)))
 #define RING_enqueue_ff(r, v, cap, rs) ring_enqueue(&(r), (v), (cap), (rs), 0)
 #define RING_enqueue_ft(r, v, cap, rs) ring_enqueue(&(r), (v), (cap), (rs), 1)
 #define RING_finalize(r) ring_finalize(&(r))
@@ -49,7 +48,7 @@ unsigned short g_t_construct, g_t_destroy, g_t_moveout;
 #define XV_INIT__allocated_queue(self, cap, rs, tag) ring_ctor(&(self)->_allocated_queue, (cap), (rs), (tag))
 #define XV_INIT__free_queue(self, cap, rs, tag) ring_ctor(&(self)->_free_queue, (cap), (rs), (tag))
 /* ---- guards and node handles */
-guard_ptr g_protected; uint64_t g_acq_clock; unsigned g_acquires;
+guard_ptr g_protected; uint64_t g_acq_clock; unsigned g_acquires; marked_ptr g_new_node;
 static struct node* gderef(guard_ptr n) {
   XV_OBL("nq.guard.protected", n != 0 && n <= NP && n == g_protected && node_at(n)->xv_live);   /* only a protected, not yet freed node is accessed */
   return node_at(n);
@@ -69,12 +68,15 @@ static void g_reclaim(guard_ptr* n) {
 }
 #define G_reclaim(n) g_reclaim(&(n))
 static void nq_node_ctor(struct node* self); static void nq_node_ctor_value(struct node* self, T* value_p); static void nq_node_dtor(struct node* self);
+_Bool g_race_armed, g_reserve1; unsigned g_deletes;   /* g_reserve1: pool slot 1 belongs to the competing producer (INT runs) */
 static marked_ptr new_node(T* value) {
-  unsigned k = NP; for (unsigned i = 0; i < NP; i++) if (k == NP && !NODE(i).xv_live && NODE(i).xv_retired == 0) k = i;
+  if (g_race_armed) { g_race_armed = 0; node0._next = 2; node0._allocated_queue.a.fin = 1; }   /* h_push_race: a competing producer links its node first */
+  unsigned k = NP; for (unsigned i = 0; i < NP; i++) if (k == NP && !NODE(i).xv_live && NODE(i).xv_retired == 0 && !(i == 1 && g_reserve1)) k = i;
   XV_ASSUME(k < NP);                      /* pool shape: one spare node */
   NODE(k)._next = 0; NODE(k).xv_live = 1; NODE(k).xv_deleted = 0; NODE(k).xv_retired = 0;
   for (unsigned i = 0; i < CAP; i++) NODE(k)._storage[i].alive = 0;
   if (value) nq_node_ctor_value(&NODE(k), value); else nq_node_ctor(&NODE(k));
+  g_new_node = k + 1;
   return k + 1;
 }
 static void delete_node(marked_ptr h) {
@@ -84,7 +86,7 @@ static void delete_node(marked_ptr h) {
     for (unsigned i = 0; i < NP; i++) XV_OBL("nq.node.delete_once", !(NODE(i).xv_live && NODE(i)._next == h));
   }
   nq_node_dtor(node_at(h));
-  node_at(h)->xv_live = 0; node_at(h)->xv_deleted++;
+  node_at(h)->xv_live = 0; node_at(h)->xv_deleted++; g_deletes++;
 }
 #define XV_NEW_NODE() new_node(0)
 #define XV_NEW_NODE_V(v) new_node(&(v))
@@ -96,25 +98,31 @@ static void delete_node(marked_ptr h) {
 #define XV_CALL_SUCCESS(d) nq_try_pop_success(successFunc, &(d))
 #define XV_CALL_EMPTY() nq_try_pop_empty()
 
-/* ---- monitors for the commit obligations (INT run) */
-#ifdef XV_MONITOR
-unsigned mon_cas_count; _Bool mon_bad;
-uint64_t mon_next_val, mon_next_clock; void* mon_next_addr;
+/* ---- monitors */
+unsigned mon_cas_count; uint64_t mon_next_val, mon_next_clock; _Bool mon_commit_on;
 static void mon_load(void* addr, uint64_t v, int o) {
-  for (unsigned i = 0; i < NP; i++) if (addr == (void*)&NODE(i)._next) { mon_next_val = v; mon_next_clock = xv_clock; mon_next_addr = addr; }
+  if (addr == (void*)&node0._next || addr == (void*)&node1._next || addr == (void*)&node2._next) { mon_next_val = v; mon_next_clock = xv_clock; }
 }
 static void mon_cas(void* addr, uint64_t e, uint64_t d, _Bool ok, int o) {
   mon_cas_count++;
+  if (!mon_commit_on) return;
+  XV_CANARY("commit.cas_checked");
   if (addr == (void*)&g_self->_tail || addr == (void*)&g_self->_head) {
-    /* head/tail are swung only from the value the guard protects, read when the guard was acquired */
-    XV_OBL("nq.commit", e == g_protected && g_protected != 0 && g_acq_clock < xv_clock);
-    XV_OBL("nq.commit", XV_IS_RELEASE(o));
+    /* head/tail are swung only from the node the guard protects (the value read when the guard was acquired) to the successor read from that node afterwards */
+    XV_OBL("nq.commit", e == g_protected && g_protected != 0 && g_acq_clock < xv_clock && XV_IS_RELEASE(o));
+    XV_OBL("nq.commit", d != 0 && (d == mon_next_val ? mon_next_clock > g_acq_clock : d == g_new_node));
   } else {
-    /* link CAS: on the protected node's _next, expected null */
-    XV_OBL("nq.commit", g_protected != 0 && addr == (void*)&node_at(g_protected)->_next && e == 0 && XV_IS_RELEASE(o));
+    /* link CAS: on the protected node's _next, expected null, desired = the node just allocated */
+    XV_OBL("nq.commit", g_protected != 0 && addr == (void*)&node_at(g_protected)->_next && e == 0 && d == g_new_node && d != 0 && XV_IS_RELEASE(o));
   }
 }
-#endif
+/* ---- INT runs: the retry loops of push / do_pop are cut by an invariant (any well-formed queue state), and between any two atomic
+ * accesses other threads act (xv_env): link the competitor's node behind node0, swing _tail forward, swing _head forward and retire node0 */
+struct nq; static void havoc_int_state(struct nq* q); static _Bool int_wf(struct nq* q); uint32_t g_int_v;
+#define XV_INV_POP (int_wf(self))
+#define XV_HAVOC_POP n = nondet_uptr(); havoc_int_state(self)   /* re-creates every node and _head/_tail: idx next expected _head _allocated_queue _free_queue _storage GDEREF */
+#define XV_INV_PUSH (int_wf(self) && value.alive && !value.moved && !value.cell && value.v == g_int_v)
+#define XV_HAVOC_PUSH n = nondet_uptr(); havoc_int_state(self); value.v = g_int_v; value.moved = 0; value.alive = 1; value.cell = 0   /* _tail _next next expected GDEREF NDEREF */
 #include "lowered.h"
 
 /* ---------------------------------------------------------------- node-level state: Inv_N = allocated ++ free is a permutation of
@@ -137,7 +145,7 @@ static void havoc_node(unsigned k, unsigned s) {     /* NODE(k) from input set s
 }
 static void reset_ghost(void) {
   for (unsigned k = 0; k < NP; k++) for (unsigned i = 0; i < CAP; i++) { NODE(k)._storage[i].nd = 0; NODE(k)._storage[i].nc = 0; NODE(k)._storage[i].nm = 0; NODE(k)._storage[i].cell = 1; }
-  g_ext_moved_out = 0; g_ext_assigned = 0; xv_ev = 0; g_t_construct = 0; g_t_destroy = 0; g_t_moveout = 0; g_protected = 0; g_acquires = 0; g_in_dtor = 0;
+  g_ext_moved_out = 0; g_ext_assigned = 0; xv_ev = 0; g_t_construct = 0; g_t_destroy = 0; g_t_moveout = 0; g_protected = 0; g_acquires = 0; g_in_dtor = 0; g_new_node = 0; g_race_armed = 0; g_reserve1 = 0; g_deletes = 0; mon_cas_count = 0; mon_next_val = nondet_u64(); mon_next_clock = 0; g_deq_clock = 0; g_deq_ok = 0; mon_commit_on = 0; xv_clock = 0;
   xv_expected_rs = calc_remap_shift(CAP); in_cap = CAP;
 }
 static void havoc_dead(unsigned k) {
@@ -250,6 +258,8 @@ static unsigned content(struct nq* q, uint64_t* out) {          /* abstract queu
   }
   return len;
 }
+static unsigned live_nodes(void) { return (node0.xv_live ? 1 : 0) + (node1.xv_live ? 1 : 0) + (node2.xv_live ? 1 : 0); }
+static unsigned list_len(struct nq* q) { unsigned l = 0; marked_ptr h = q->_head; for (unsigned s = 0; s < NP; s++) { if (h == 0 || h > NP) break; l++; h = node_at(h)->_next; } return l; }
 static _Bool inv_queue(struct nq* q) {          /* list well-formed, every linked node satisfies Inv_N, tail = last node */
   marked_ptr h = q->_head, last = 0;
   for (unsigned s = 0; s < NP; s++) {
@@ -265,6 +275,7 @@ void h_push(void) {
   struct nq q; havoc_queue(&q); in_op = 0;
   uint64_t before[NP * CAP + 1], after[NP * CAP + 1]; unsigned nb = content(&q, before);
   T value; value.v = in_v = nondet_u32(); value.alive = 1; value.moved = 0; value.cell = 0;
+  mon_commit_on = 1;
   nq_push(&q, value);
   unsigned na = content(&q, after);
   XV_OBL("nq.push.appends", na == nb + 1 && after[nb] == in_v);
@@ -281,12 +292,36 @@ void h_push(void) {
   }
   if (in_lag) XV_CANARY("push.helped_tail");
   XV_OBL("nq.node.delete_once", node0.xv_deleted + node1.xv_deleted + node2.xv_deleted == 0 && node0.xv_retired + node1.xv_retired + node2.xv_retired == 0);
+  XV_OBL("nq.node.no_leak", live_nodes() == list_len(&q));
+}
+
+/* push that loses the link race: our try_push on the tail node fails, and while we allocate our node a competing producer links ITS node
+ * (node1, any Inv_N state) behind the tail node.  Our link CAS fails: the value must be taken back out of our private node
+ * (steal_init_value), the private node deleted, and the push retried (help _tail forward, then push into / behind the competitor's node). */
+void h_push_race(void) {
+  struct nq q; havoc_queue(&q); in_op = 0; XV_ASSUME(in_L == 1 && (in_na[0] == CAP || in_fin[0]));
+  havoc_node(1, 1); XV_ASSUME(!in_fin[1]);              /* the competitor's node, not yet linked */
+  uint64_t before[NP * CAP + 1], after[NP * CAP + 1]; unsigned nb = content(&q, before);
+  { struct ring_abs* A = &node1._allocated_queue.a; for (unsigned i = 0; i < CAP; i++) if (i < A->cnt) { before[nb] = node1._storage[A->vals[i]].v; nb++; } }
+  T value; value.v = in_v = nondet_u32(); value.alive = 1; value.moved = 0; value.cell = 0;
+  g_race_armed = 1; mon_commit_on = 1;
+  nq_push(&q, value);
+  unsigned na = content(&q, after);
+  XV_OBL("nq.push.appends", !g_race_armed && na == nb + 1 && after[nb] == in_v);
+  for (unsigned i = 0; i < NP * CAP; i++) if (i < nb) XV_OBL("nq.push.appends", after[i] == before[i]);
+  XV_OBL("nq.inv.preserved", inv_queue(&q) && q._head == 1);
+  XV_OBL("nq.push.rollback", total(g_constructed) == total(g_destroyed) + 1 && total(g_destroyed) == total(g_movedout) && total(g_destroyed) >= 1);
+  XV_OBL("nq.node.delete_once", node0.xv_deleted == 0 && node1.xv_deleted == 0 && node0.xv_retired + node1.xv_retired + node2.xv_retired == 0);
+  XV_OBL("nq.node.no_leak", live_nodes() == list_len(&q));
+  if (node2.xv_live) { XV_OBL("nq.push.hand_over", node1._next == 3 && q._tail == 3 && g_deletes == 1); XV_CANARY("push_race.third_node"); }
+  else { XV_OBL("nq.push.hand_over", q._tail == 2 && g_deletes == 1); XV_CANARY("push_race.into_competitor_node"); }
 }
 
 void h_pop(void) {
   struct nq q; havoc_queue(&q); in_op = 1;
   uint64_t before[NP * CAP + 1], after[NP * CAP + 1]; unsigned nb = content(&q, before);
   T result; result.v = nondet_u32(); result.alive = 1; result.cell = 0; result.moved = nondet_bool(); uint64_t r0 = result.v; _Bool m0 = result.moved;
+  mon_commit_on = 1;
   _Bool r = nq_try_pop(&q, &result);
   unsigned na = content(&q, after);
   XV_OBL("nq.pop.empty_iff", r == (nb > 0));
@@ -294,10 +329,12 @@ void h_pop(void) {
     XV_OBL("nq.pop.takes_first", result.v == before[0] && !result.moved && na == nb - 1);
     for (unsigned i = 0; i < NP * CAP; i++) if (i + 1 < nb) XV_OBL("nq.pop.takes_first", after[i] == before[i + 1]);
     XV_OBL("nq.own.exactly_once", total(g_destroyed) == 1 && total(g_movedout) == 1 && total(g_constructed) == 0 && g_ext_assigned == 1);
-    XV_OBL("nq.pop.release_order", g_t_moveout < g_t_destroy);
+    XV_OBL("nq.pop.destroy_before_release", g_t_moveout < g_t_destroy && g_t_destroy < node_at(q._head)->_free_queue.t_enq && node_at(q._head)->_free_queue.n_enq == 1);
     XV_CANARY("pop.took");
   } else {
     XV_OBL("nq.pop.empty_iff", result.v == r0 && result.moved == m0 && na == 0 && total(g_destroyed) == 0 && total(g_movedout) == 0);
+    /* "empty" only if _next of the head node was null when read AFTER the dequeue on that node had failed */
+    XV_OBL("nq.pop.empty_validated", !g_deq_ok && mon_next_val == 0 && mon_next_clock > g_deq_clock);
     XV_CANARY("pop.empty");
   }
   /* hand-over: an empty head node that has a successor is unlinked and retired exactly once; a node that still holds values, and the last node, never */
@@ -329,26 +366,54 @@ void h_dtor(void) {
   if (in_L == 2) XV_CANARY("dtor.two_nodes"); else XV_CANARY("dtor.one_node");
 }
 
-/* ---------------------------------------------------------------- INT: commit obligations are asserted by the CAS monitor */
+
+/* ---------------------------------------------------------------- INT */
+static _Bool int_wf(struct nq* q) {
+  if (!(node0.xv_live && inv_node(&node0) && (q->_head == 1 || q->_head == 2) && (q->_tail == 1 || q->_tail == 2))) return 0;
+  if (!(node0._next == 0 || node0._next == 2)) return 0;
+  if ((q->_head == 2 || q->_tail == 2) && node0._next != 2) return 0;                 /* head/tail only move along the list */
+  if (node0._next == 2 && !(node1.xv_live && node0._allocated_queue.a.fin)) return 0; /* successors only behind finalized nodes */
+  if (node1.xv_live && !(inv_node(&node1) && node1._next == 0 && node1.xv_retired == 0)) return 0;
+  if (node0.xv_retired > (q->_head == 2 ? 1 : 0)) return 0;
+  return !node2.xv_live && node2.xv_retired == 0;
+}
+static void havoc_int_state(struct nq* q) {
+  reset_ghost(); g_self = q; mon_commit_on = 1; g_reserve1 = 1;
+  havoc_node(0, 0); havoc_dead(2);
+  if (nondet_bool()) havoc_node(1, 1); else havoc_dead(1);
+  node0._next = nondet_bool() ? 2 : 0; q->_head = nondet_bool() ? 2 : 1; q->_tail = nondet_bool() ? 2 : 1; node0.xv_retired = nondet_bool() ? 1 : 0;
+}
 #ifdef XV_INT
 _Bool env_on;
-void xv_env(void) {        /* other threads: may link a node behind any node, swing head/tail among the live nodes */
+void xv_env(void) {
   if (!env_on) return;
-  if (nondet_bool()) { marked_ptr t = nondet_uptr(); if (t >= 1 && t <= 2 && node_at(t)->xv_live) g_self->_tail = t; }
-  if (nondet_bool() && NODE(0)._next == 0 && NODE(1).xv_live) { NODE(0)._next = 2; NODE(0)._allocated_queue.a.fin = 1; }
+  if (nondet_bool() && node0._next == 0 && node1.xv_live) { node0._next = 2; node0._allocated_queue.a.fin = 1; }   /* a competing producer links its node */
+  if (nondet_bool() && node0._next == 2) g_self->_tail = 2;                                                       /* ... or helps _tail forward */
+  if (nondet_bool() && node0._next == 2 && g_self->_head == 1) { g_self->_head = 2; node0.xv_retired++; }         /* a consumer unlinks and retires node0 */
 }
 #endif
-void h_push_int(void) {
-#if defined(XV_INT) && defined(XV_MONITOR)
-  struct nq q; havoc_queue(&q); in_op = 0; XV_ASSUME(in_L == 1);
-  havoc_node(1, 1);                       /* a node another producer is about to link */
-  T value; value.v = nondet_u64(); value.alive = 1; value.moved = 0; value.cell = 0;
-  mon_cas_count = 0; env_on = 1;
-  nq_push(&q, value);
+void h_pop_int(void) {
+#ifdef XV_INT
+  struct nq q; havoc_queue(&q); in_op = 1;
+  T result; result.v = nondet_u32(); result.alive = 1; result.cell = 0; result.moved = nondet_bool();
+  mon_commit_on = 1; env_on = 1;
+  _Bool r = nq_do_pop_int(&q, &result, 0);
   env_on = 0;
-  XV_OBL("nq.commit", value.moved);       /* the value ended up in exactly one node */
-  XV_OBL("nq.own.exactly_once", total(g_constructed) == total(g_destroyed) + 1);
-  if (mon_cas_count > 0) XV_CANARY("push_int.cas");
-  if (NODE(2).xv_deleted) XV_CANARY("push_int.lost_link_race");
+  /* whatever the others did: a value is delivered iff exactly one cell was moved out and destroyed in this (last) iteration */
+  XV_OBL("nq.own.exactly_once", r ? (total(g_destroyed) == 1 && total(g_movedout) == 1 && !result.moved) : (total(g_destroyed) == 0 && total(g_movedout) == 0));
+  XV_OBL("nq.pop.retire_once", node0.xv_retired <= 1 && node1.xv_retired == 0);
+  if (r) XV_CANARY("pop_int.took"); else XV_CANARY("pop_int.empty");
+#endif
+}
+void h_push_int(void) {
+#ifdef XV_INT
+  struct nq q; havoc_queue(&q); in_op = 0;
+  T value; value.v = g_int_v = nondet_u32(); value.alive = 1; value.moved = 0; value.cell = 0;
+  mon_commit_on = 1; env_on = 1; g_reserve1 = 1;
+  nq_push_int(&q, value);
+  env_on = 0;
+  XV_OBL("nq.own.exactly_once", total(g_constructed) == total(g_destroyed) + 1);     /* the value sits in exactly one cell */
+  XV_OBL("nq.node.delete_once", node0.xv_deleted == 0 && node1.xv_deleted == 0);
+  XV_CANARY("push_int.returned"); if (node2.xv_live) XV_CANARY("push_int.linked");
 #endif
 }
